@@ -80,7 +80,15 @@ class BadStrCaught(Caught):
 OUTCOMES = ["value", "caught", "subcaught", "other", "cancelled", "base", "badstr", "deepcaught", "unhashable"]
 
 
+_MORE_UNRELATED = tuple(type(f"Unrelated{i}", (Exception,), {}) for i in range(2, 6))
+
+
 def programs(tier: str):
+    # LARGER caught sets (six classes, the caught family last): subclasses are still caught
+    for limit in BOUNDS[tier]["limits"]:
+        for catching in ("tuple6", "set6"):
+            for mode in ("sync", "async"):
+                yield {"limit": limit, "catching": catching, "delay": "none", "mode": mode, "scoped": False}
     for limit in BOUNDS[tier]["limits"]:
         for catching in ("default", "class", "tuple", "set", "empty-tuple", "empty-set"):
             for delay in ("none", "int", "float", "fn", "zero", "zerof", "fn-varargs", "fn-int"):
@@ -512,6 +520,10 @@ def execute(program, ch: Chooser) -> Result:  # noqa: C901, PLR0912, PLR0915
         kwargs["catching"] = (Unrelated, Caught)
     elif catching == "set":
         kwargs["catching"] = {Unrelated, Caught}
+    elif catching == "tuple6":
+        kwargs["catching"] = (Unrelated, *_MORE_UNRELATED, Caught)  # six classes
+    elif catching == "set6":
+        kwargs["catching"] = {Unrelated, *_MORE_UNRELATED, Caught}
     elif catching == "empty-tuple":
         kwargs["catching"] = ()  # nothing is caught: every exception ends the call
     elif catching == "empty-set":
